@@ -363,3 +363,52 @@ M("c08-poll-without-auth", "C08", "C08.AUTH", (POLLF, "response = stub.poll(requ
 M("c08-provider-ignored", "C08", "C08.AUTH", (GSVC, "        if provider is not None:\n            return provider.provide()\n        return []", "        if provider is None:\n            return provider.provide()\n        return []"))
 M("c08-watch-source-name", "C08", "C08.SOURCE", ("src/deep/api/tracepoint/eventsnapshot.py", "WATCH_SOURCE_CAPTURE = \"CAPTURE\"", "WATCH_SOURCE_CAPTURE = \"CAPTURED\""))
 R("c08-reorder-keywords", "C08", (PUSHI, "    return Variable(type=variable.type, value=variable.value, hash=variable.hash,", "    return Variable(hash=variable.hash, type=variable.type, value=variable.value,"))
+
+# ------------------------------------------------------------------ C19
+CFG = "src/deep/config/__init__.py"
+CSV = "src/deep/config/config_service.py"
+M("c19-env-before-module", "C19", "C19.CHAIN", (CSV, """                from deep import config
+                has_attr = hasattr(config, name)
+                if not has_attr:
+                    # attribute is no in 'deep.config', so look in env
+                    from_env = os.getenv("DEEP_%s" % name, None)
+                    if from_env is None:
+                        # not found in env - log and return none
+                        logging.warning("Unrecognised config key: %s", name)
+                        return None
+                    else:
+                        # if loaded from env, then cannot be function
+                        return from_env
+                attr = getattr(config, name, None)""", """                from deep import config
+                from_env = os.getenv("DEEP_%s" % name, None)
+                if from_env is not None:
+                    return from_env
+                has_attr = hasattr(config, name)
+                if not has_attr:
+                    logging.warning("Unrecognised config key: %s", name)
+                    return None
+                attr = getattr(config, name, None)"""))
+M("c19-custom-not-called", "C19", "C19.CHAIN", (CSV, "            if self.__custom is not None and name in self.__custom:\n                attr = self.__custom[name]\n", "            if self.__custom is not None and name in self.__custom:\n                return self.__custom[name]\n"))
+M("c19-env-prefix", "C19", "C19.CHAIN", (CSV, "from_env = os.getenv(\"DEEP_%s\" % name, None)", "from_env = os.getenv(\"%s\" % name, None)"))
+M("c19-poll-timer-text", "C19", "C19.ENV", (CFG, "POLL_TIMER = int(os.getenv('DEEP_POLL_TIMER', 10))", "POLL_TIMER = os.getenv('DEEP_POLL_TIMER', 10)"))
+M("c19-exclude-nested", "C19", "C19.ENV", (CFG, "    elif ',' in user_defined:\n        user_defined = user_defined.split(',')\n    else:\n        user_defined = [user_defined]\n", "    else:\n        if ',' in user_defined:\n            user_defined = user_defined.split(',')\n        user_defined = [user_defined]\n"))
+M("c19-wrong-env-name", "C19", "C19.DOC", (CFG, "SERVICE_URL = os.getenv('DEEP_SERVICE_URL', 'deep:43315')", "SERVICE_URL = os.getenv('DEEP_URL', 'deep:43315')"))
+M("c19-include-wins", "C19", "C19.FRAME", (CSV, """        for path in in_app_exclude:
+            if filename.startswith(path):
+                return False, path
+
+        for path in in_app_include:
+            if filename.startswith(path):
+                return True, path
+""", """        for path in in_app_include:
+            if filename.startswith(path):
+                return True, path
+
+        for path in in_app_exclude:
+            if filename.startswith(path):
+                return False, path
+"""))
+M("c19-short-path-off", "C19", "C19.FRAME", ("src/deep/processor/frame_collector.py", "            return filename[len(match):], is_app_frame", "            return filename[len(match) + 1:], is_app_frame"))
+M("c19-approot-always-derived", "C19", "C19.ROOT", ("src/deep/__init__.py", "    if 'APP_ROOT' not in config:\n", "    if True:\n"))
+M("c19-approot-env-last", "C19", "C19.ROOT", ("src/deep/__init__.py", "config['APP_ROOT'] = os.getenv(\"DEEP_APP_ROOT\", None) or os.path.dirname(\n            os.path.dirname(inspect.stack()[1].filename))", "config['APP_ROOT'] = os.path.dirname(\n            os.path.dirname(inspect.stack()[1].filename)) or os.getenv(\"DEEP_APP_ROOT\", None)"))
+R("c19-float-timer", "C19", (CFG, "POLL_TIMER = int(os.getenv('DEEP_POLL_TIMER', 10))", "POLL_TIMER = float(os.getenv('DEEP_POLL_TIMER', 10))"))
